@@ -32,6 +32,7 @@ type Config struct {
 	FixedInputs     map[string]interface{} // concrete run: label -> value
 	Deadline        time.Time
 	MaxViolations   int
+	PreemptBound    int // >0: CHESS-style bound on pre-emptions per path (see pickAt)
 	// KnownClass, when set, maps a violation to the index of the known finding it matches (or -1).
 	// Known findings are kept once per index and do not count towards MaxViolations.
 	KnownClass func(v *Violation) int
@@ -122,6 +123,7 @@ type Exec struct {
 	pathDone   chan struct{}
 	timers     []*timerObj
 	schedUsed  int
+	preemptions int
 	envActions []*Closure
 
 	// results
@@ -140,6 +142,8 @@ type Exec struct {
 	initHash       uint64
 	skipped        bool
 	shadow         map[interface{}]*shadowCell
+	strlenSeen     map[*Term]bool
+	axioms         int
 	atomicVC       map[*Value]vclock
 	harnessFnCache map[*ssa.Function]bool
 	// ConcreteTrace: assertion outcomes and witnesses of the current path in concrete mode
@@ -277,6 +281,8 @@ func (ex *Exec) runOnePath() {
 	ex.externGlobals = map[*ssa.Global]Value{}
 	ex.pc = nil
 	ex.shadow = nil
+	ex.strlenSeen = nil
+	ex.axioms = 0
 	ex.atomicVC = nil
 	ex.completed = false
 	ex.ConcreteTrace = nil
@@ -295,6 +301,7 @@ func (ex *Exec) runOnePath() {
 	ex.timers = nil
 	ex.killed = false
 	ex.schedUsed = 0
+	ex.preemptions = 0
 	ex.envActions = nil
 	ex.pathDone = make(chan struct{})
 	ex.lastNow = nil
@@ -730,6 +737,11 @@ func (ex *Exec) recordViolation(kind, msg string, fr *frame, extra []*Term) {
 	if ex.vioKeys[v.Key()] {
 		return
 	}
+	if len(ex.trace) > 60 {
+		v.Trace = append([]string(nil), ex.trace[len(ex.trace)-60:]...)
+	} else {
+		v.Trace = append([]string(nil), ex.trace...)
+	}
 	if ex.cfg.KnownClass != nil {
 		if k := ex.cfg.KnownClass(v); k >= 0 {
 			v.Known = k + 1
@@ -758,11 +770,6 @@ func (ex *Exec) recordViolation(kind, msg string, fr *frame, extra []*Term) {
 		}
 	}
 	v.Atoms = append([]string(nil), ex.ts.AtomTable()...)
-	if len(ex.trace) > 60 {
-		v.Trace = append([]string(nil), ex.trace[len(ex.trace)-60:]...)
-	} else {
-		v.Trace = append([]string(nil), ex.trace...)
-	}
 	ex.Violations = append(ex.Violations, v)
 }
 
